@@ -435,6 +435,14 @@ func ruleReadLimitsConstant(w *World, r *Run, rule string) {
 				if !good && configValue(fn, arg, 0) {
 					good = true
 				}
+				// or a field of an options structure whose only production value is one positive constant (devirt.go)
+				if u, isLoad := arg.(*ssa.UnOp); !good && isLoad {
+					if fa, ok := u.X.(*ssa.FieldAddr); ok {
+						if k := w.fieldConstDefault(fa); k != nil && k.Value != nil && k.Int64() > 0 {
+							good = true
+						}
+					}
+				}
 				r.Check(good, rule, funcNameOrSSA(outermost(fn))+" | read limit is a positive constant", w.pos(in.Pos()), name+" is given a limit that is neither a positive constant nor configuration: a value such as Content-Length is -1 for chunked responses and silently turns every body into an empty one")
 			}
 		}
